@@ -125,7 +125,7 @@ def range_part(chk, tier, seed, rnd):
     for e in rnd.sample(good, min(10, len(good))):
         c = json.loads(json.dumps(e))
         c["id"] = "canary." + e["id"]
-        del c["lines"][1]
+        c["lines"].insert(1, c["lines"][0])          # the first address printed twice
         canaries.add(c["id"])
         events.append(c)
     verdicts, runs = C.tlc_accept("TraceTiling", "trace_Tiling.cfg", events, rd, "walk", heap="3g")
